@@ -438,10 +438,62 @@ GENS['C18'] = gen_text_cases
 SCENARIO_PROPS = ('C01', 'C02', 'C03', 'C04', 'C05', 'C06', 'C07', 'C09', 'C12', 'C14', 'C15', 'C20')
 
 
+def evaluate(case, replay_kind, out):
+    """Why (or None) the recorded output `out` of `case` violates the property its replay kind names."""
+    if replay_kind == 'pair_key':
+        return None
+    if replay_kind.startswith('special:'):
+        from . import scen
+        _, fn, pidk = replay_kind.split(':')
+        vs = [x for x in getattr(scen, fn)(case, out.get('out', {})) if x[0] == pidk] if out.get('ok') else []
+        return vs[0][1] if vs else None
+    if replay_kind.startswith('scenario:'):
+        from . import scen
+        pidk = replay_kind.split(':')[1]
+        vs = [x for x in scen.check_scenario(case, out.get('out', {})) if x[0] == pidk] if out.get('ok') else []
+        return vs[0][1] if vs else None
+    return PREDS[replay_kind](case, out)
+
+
+CORPUS = os.path.join(ROOT, 'corpus')
+
+
+def corpus_cases(pid):
+    """Regression corpus: concrete inputs that once exposed a violation of `pid` on some changed tree (harvested by the seed matrix).
+    On the unchanged tree none of them violates anything (tools/validate_search.py checks that)."""
+    path = os.path.join(CORPUS, pid + '.jsonl')
+    out = []
+    if os.path.exists(path):
+        with open(path) as f:
+            for line in f:
+                line = line.strip()
+                if line:
+                    out.append(json.loads(line))
+    return out
+
+
+def search_corpus(pid):
+    ents = corpus_cases(pid)
+    if not ents:
+        return None
+    outs = run_cases([e['case'] for e in ents])
+    if outs is None:
+        return None
+    for e, o in zip(ents, outs):
+        why = evaluate(e['case'], e['replay_kind'], o)
+        if why:
+            return dict(case=e['case'], result=o if not e['replay_kind'].startswith(('scenario:', 'special:')) else dict(ok=o.get('ok')), why=why + ' [regression corpus]', replay_kind=e['replay_kind'])
+    return None
+
+
 def search(pid, failure, tier, seed):
     """After a rejected / undecidable obligation: look for a concrete failing input on the real code. Returns dict or None.
+    The committed regression corpus of the property runs first (deterministic, a few seconds), then the random streams.
     The fixed stream (seed 0) always runs first, so that what the search finds does not depend on VERIF_SEED; a non-zero seed adds a second,
     seed-specific stream."""
+    hit = search_corpus(pid)
+    if hit:
+        return hit
     for sd in ([0] if not seed else [0, seed]):
         hit = _search_stream(pid, failure, tier, sd)
         if hit:
